@@ -467,12 +467,39 @@ def _literal_seq(node) -> bool:
     return False
 
 
+def _maybe_shared_mutable(t: "T") -> bool:
+    """Can the value be a mutable object that something else also refers to?  (Only such values make `x += y` visible
+    elsewhere.)  Values read from attributes, items, parameters, globals or loop elements can; numbers, strings, tuples
+    and objects created in this very expression cannot."""
+    if t.op in ("attr", "sub", "param", "elem", "global", "default"):
+        return True
+    if t.op == "ite":
+        return _maybe_shared_mutable(t.a[1]) or _maybe_shared_mutable(t.a[2])
+    if t.op == "widen":
+        return any(_maybe_shared_mutable(x) for x in t.a[2] if not (x.op == "widen" and x.a[:2] == t.a[:2]))
+    if t.op == "mut":
+        return _maybe_shared_mutable(t.a[0])
+    return False
+
+
+def _const_tree(t: "T") -> bool:
+    if t.op == "const":
+        return True
+    if t.op in ("tuple", "list"):
+        return all(_const_tree(x) for x in t.a[0])
+    return False
+
+
 def unrollable(node: ast.For) -> bool:
     """`for x in (<literal>, <literal>, ...)` with a body that has no break / continue / return / yield / nested loop:
     such a loop is straight-line code repeated for each literal item."""
     if not isinstance(node.iter, (ast.Tuple, ast.List)) or not node.iter.elts or len(node.iter.elts) > 64 \
             or not all(_literal_seq(e) for e in node.iter.elts) or node.orelse:
         return False
+    return _unrollable_body(node)
+
+
+def _unrollable_body(node: ast.For) -> bool:
     for st in node.body:
         for n in ast.walk(st):
             if isinstance(n, (ast.Break, ast.Continue, ast.Return, ast.Yield, ast.YieldFrom, ast.For, ast.While, ast.Try,
@@ -598,6 +625,10 @@ class _Frame:
         cur = self.eval(_as_load(s.target), st)
         val = self.eval(s.value, st)
         new = self.binop(opname, cur, val)
+        if isinstance(s.target, ast.Name) and opname in ("+", "*", "|", "&", "-", "^") and _maybe_shared_mutable(cur):
+            # `x += y` on a name bound to a list / set / dict updates that object IN PLACE (x.__iadd__(y)): every other
+            # reference to it - the attribute or argument it was read from - sees the change
+            self.effect("mut-call", cur, "__iadd__", val, (val,), st, s, path=cur)
         self.bind(s.target, new, st, s, aug=opname, aug_val=val)
         return st
 
@@ -711,6 +742,68 @@ class _Frame:
             return ra
         return merge(ra, rb, test, base_pc)
 
+    def s_Match(self, s, st):
+        """`match` is interpreted as the if/elif chain it abbreviates.  Supported patterns: `Cls()` (isinstance), literal and
+        dotted-name values, `None/True/False`, `_`, capture names, `p as x`, `p1 | p2`; anything else is reported as an
+        unsupported statement (the function's record gets a note and the rules that need it fail closed)."""
+        subject = s.subject
+        pre = []
+        if not isinstance(subject, ast.Name):
+            tmp = ast.Name(id="__match_subject__", ctx=ast.Store())
+            pre.append(ast.copy_location(ast.Assign(targets=[tmp], value=subject), s))
+            subject = ast.Name(id="__match_subject__", ctx=ast.Load())
+
+        def load():
+            return ast.copy_location(ast.Name(id=subject.id, ctx=ast.Load()), s)
+
+        def pat(p):
+            """(test expression or None for 'always', [bindings]) or raise ValueError."""
+            if isinstance(p, ast.MatchClass) and not p.patterns and not p.kwd_patterns:
+                return ast.Call(func=ast.Name(id="isinstance", ctx=ast.Load()), args=[load(), p.cls], keywords=[]), []
+            if isinstance(p, ast.MatchValue):
+                return ast.Compare(left=load(), ops=[ast.Eq()], comparators=[p.value]), []
+            if isinstance(p, ast.MatchSingleton):
+                return ast.Compare(left=load(), ops=[ast.Is()], comparators=[ast.Constant(value=p.value)]), []
+            if isinstance(p, ast.MatchAs):
+                if p.pattern is None:
+                    return None, ([p.name] if p.name else [])
+                t, b = pat(p.pattern)
+                return t, b + ([p.name] if p.name else [])
+            if isinstance(p, ast.MatchOr):
+                tests = []
+                for q in p.patterns:
+                    t, b = pat(q)
+                    if b:
+                        raise ValueError("bindings in an or-pattern")
+                    if t is None:
+                        return None, []
+                    tests.append(t)
+                return ast.BoolOp(op=ast.Or(), values=tests), []
+            raise ValueError(type(p).__name__)
+
+        chain: list = []
+        try:
+            for case in reversed(s.cases):
+                t, binds = pat(case.pattern)
+                body = [ast.Assign(targets=[ast.Name(id=b, ctx=ast.Store())], value=load()) for b in binds] + list(case.body)
+                if case.guard is not None:
+                    if binds:
+                        raise ValueError("guard over captured names")
+                    t = case.guard if t is None else ast.BoolOp(op=ast.And(), values=[t, case.guard])
+                if t is None:
+                    chain = body
+                else:
+                    chain = [ast.If(test=t, body=body, orelse=chain)]
+        except ValueError as ex:
+            self.rec.notes.append(f"{self.qualname}:{s.lineno}: unsupported statement Match ({ex})")
+            return st
+        for node in pre + chain:
+            for sub in ast.walk(node):
+                if not hasattr(sub, "lineno"):
+                    ast.copy_location(sub, s)
+            ast.fix_missing_locations(node)
+        return self.exec_block(pre + chain, st)
+
     def _assigned_names(self, stmts, env=None) -> List[str]:
         """Names whose value may change in the statements: rebinding, or in-place mutation of a *local* object.
         Mutating an object reached through a parameter does not change what the parameter name denotes."""
@@ -795,8 +888,19 @@ class _Frame:
         return after
 
     def s_For(self, s, st):
-        if unrollable(s):
-            items = self.eval(s.iter, st)
+        it = self.eval(s.iter, st)
+        if unrollable(s) or (not s.orelse and _unrollable_body(s)):
+            items = it
+            if not unrollable(s):
+                # a table-driven loop: `for raw, name in _FIELDS:` over a module-level tuple of literals (possibly reached
+                # through a parameter of an inlined helper) is the same straight-line code as the literal spelled in place
+                if items.op == "global":
+                    found = self.repo.lookup(items.a[0])
+                    if found and found[0] == "const" and isinstance(found[2], (ast.Tuple, ast.List)) and found[2].elts \
+                            and len(found[2].elts) <= 64 and all(_literal_seq(e) for e in found[2].elts):
+                        items = self.eval(found[2], st)
+                if not (items.op in ("tuple", "list") and items.a[0] and len(items.a[0]) <= 64 and all(_const_tree(i) for i in items.a[0])):
+                    items = T("unknown", ("not-a-literal-table",))
             if items.op in ("tuple", "list") and not any(i.op == "star" for i in items.a[0]):
                 for item in items.a[0]:
                     self.bind(s.target, item, st, s, record=False)
@@ -804,7 +908,33 @@ class _Frame:
                     if st is None:
                         return None
                 return st
-        it = self.eval(s.iter, st)
+            if isinstance(s.iter, ast.Name) and it.op in ("mut", "ite"):
+                # a local list built by (conditional) appends of constants: `for c in needed:` is the sequence of guarded
+                # copies of the body, one per possible element, in order
+                from .render import listify
+                elems = listify(it)
+                if elems is not None and 0 < len(elems) <= 8 and all(_const_tree(e) for e, _ in elems):
+                    for item, conds in elems:
+                        if not conds:
+                            self.bind(s.target, item, st, s, record=False)
+                            st = self.exec_block(s.body, st)
+                            if st is None:
+                                return None
+                            continue
+                        parts = tuple(c if p_ else T("not", (c,)) for c, p_ in conds)
+                        test = parts[0] if len(parts) == 1 else T("bool", ("and", parts))
+                        base_pc = st.pc
+                        sa = st.copy()
+                        sa.pc = base_pc + ((test, True),)
+                        self.bind(s.target, item, sa, s, record=False)
+                        ra = self.exec_block(s.body, sa)
+                        sb = st.copy()
+                        sb.pc = base_pc + ((test, False),)
+                        if ra is None:
+                            st = sb
+                        else:
+                            st = merge(ra, sb, test, base_pc)
+                    return st
         self._pending_iter_path = self.path_of(s.iter, st)
         return self._run_loop("for", s, st, it, s.body, s.orelse, target=s.target)
 
@@ -1020,6 +1150,9 @@ class _Frame:
             for k, v in base.a[1]:
                 if k == name:
                     return v
+            cv = self._class_attribute(base.a[0], name)
+            if cv is not None:
+                return cv
         if base.op == "ite":
             # distribute attribute access over a conditional object when both sides are constructed objects
             if base.a[1].op == "new" or base.a[2].op == "new":
@@ -1028,6 +1161,26 @@ class _Frame:
             self.rec.pops.append(POp("attr", base, name, st.pc, self.loops, self.trys, self.seq(), self.qualname,
                                      node.lineno, node.col_offset))
         return key
+
+    def _class_attribute(self, qualname: str, name: str, depth: int = 0) -> Optional[T]:
+        """A constant class-level attribute (`NAME: ClassVar[str] = 'x'` / `NAME = 'x'`) of a package class or its bases."""
+        found = self.repo.lookup(qualname)
+        if not found or found[0] != "class" or depth > 4:
+            return None
+        ci: ClassInfo = found[2]
+        for st_ in ci.node.body:
+            tgt = val = None
+            if isinstance(st_, ast.AnnAssign) and isinstance(st_.target, ast.Name):
+                tgt, val = st_.target.id, st_.value
+            elif isinstance(st_, ast.Assign) and len(st_.targets) == 1 and isinstance(st_.targets[0], ast.Name):
+                tgt, val = st_.targets[0].id, st_.value
+            if tgt == name and isinstance(val, ast.Constant):
+                return const(val.value)
+        for b in ci.bases:
+            r = self._class_attribute(b, name, depth + 1)
+            if r is not None:
+                return r
+        return None
 
     def eval_index(self, sl, st) -> T:
         if isinstance(sl, ast.Slice):
@@ -1061,6 +1214,20 @@ class _Frame:
             items = base.a[0]
             if -len(items) <= idx.a[0] < len(items) and not any(i.op == "star" for i in items):
                 return items[idx.a[0]]
+        if base.op == "ite" and idx.op == "const" and isinstance(idx.a[0], int):
+            # (a, b) if c else (d, e))[0]  ->  a if c else d   (only when every alternative is a literal sequence)
+            def pick(x):
+                if x.op == "ite":
+                    l, r = pick(x.a[1]), pick(x.a[2])
+                    return None if l is None or r is None else T("ite", (x.a[0], l, r))
+                if x.op in ("tuple", "list"):
+                    items = x.a[0]
+                    if -len(items) <= idx.a[0] < len(items) and not any(i.op == "star" for i in items):
+                        return items[idx.a[0]]
+                return None
+            got = pick(base)
+            if got is not None:
+                return got
         if base.op == "dict" and idx.op == "const":
             for k, v in reversed(base.a[0]):
                 if k == idx:
